@@ -31,3 +31,10 @@ MIRROR = {
         'sequential dependency: the expected block rebinds expected_path so that the actual block can name it in its '
         'compare command; the actual block has no later reader of actual_path',
 }
+
+# set -> sequence conversions whose order cannot reach the result
+ORDER = {
+    ('Extractor.merge_fixed_omnipresent_at_pos', 'list(frags)'):
+        'the list is used for membership tests and as dictionary keys only; its consumer get_omnipresent_at_pos sorts the '
+        '(fragment, position) pairs by position, and a position holds one fragment, so hash order cannot reach the result',
+}
